@@ -39,7 +39,7 @@ def run(ctx):
     nsh = 16
     jobs = []
     for i in range(nsh):
-        jobs.append(("exh:%d" % i, [exe, "exh", str(bound), str(i), str(nsh), str(ctx.seed), "6000" if thorough else "200000", "all" if thorough else "rot"]))
+        jobs.append(("exh:%d" % i, [exe, "exh", str(bound), str(i), str(nsh), str(ctx.seed), "1500" if thorough else "200000", "all" if thorough else "rot"]))
     nr = 8000 if thorough else 800
     for i in range(8):
         jobs.append(("rnd:%d" % i, [exe, "rnd", str(nr), str(i), "8", str(ctx.seed)]))
@@ -58,7 +58,7 @@ def run(ctx):
                 "the oracle (kind=spec) checks the implementation's own observations: every loaded value is well formed (payload self-check) and is one "
                 "of the published values, not older than the newest one published when the load started, per reader never older than before, "
                 "one producer at a time, final state = last update. distinct = distinct event traces; non-trivial = at least one store/successful CAS"
-                % (bound, "1,2,3,9,65,129", "all six for every program" if thorough else "two of the six per program, rotating (all six covered)"),
+                % (bound, "1,2,3,9,65,129", "all six for every program; the enumeration of one program stops after 1500 executions" if thorough else "two of the six per program, rotating (all six covered)"),
         "exhaustive": False,
     })
     smp = vlib.extract_case(jobs[0][1], driver, 3)
@@ -166,7 +166,7 @@ def g3(ctx):
     for i in range(nsh):
         jobs.append(("g3exh:local:%d" % i, [exe, "exh", "6" if thorough else "5", str(i), str(nsh), str(ctx.seed), "local"]))
         jobs.append(("g3exh:ipc:%d" % i, [exe, "exh", "5" if thorough else "4", str(i), str(nsh), str(ctx.seed), "ipc"]))
-        jobs.append(("g3rnd:%d" % i, [exe, "rnd", "5000" if thorough else "500", str(i), str(nsh), str(ctx.seed), "both"]))
+        jobs.append(("g3rnd:%d" % i, [exe, "rnd", "5000" if thorough else "250", str(i), str(nsh), str(ctx.seed), "both"]))
     r = vlib.run_pipelines(jobs, driver)
     ctx.cov["g3_blackboard"] = {
         "evaluations": r["cases"], "ops": r["ops"], "distinct_nontrivial": r["distinct_nontrivial"], "opcount": r["opcount"],
